@@ -991,6 +991,12 @@ class _Canon(ast.NodeTransformer):
             a = ast.Call(func=f.body, args=n.args, keywords=n.keywords)
             b = ast.Call(func=f.orelse, args=copy.deepcopy(n.args), keywords=copy.deepcopy(n.keywords))
             return ast.copy_location(ast.IfExp(test=f.test, body=ast.copy_location(a, n), orelse=ast.copy_location(b, n)), n)
+        # P25: getattr(o, n, d) -> getattr(o, n) if hasattr(o, n) else d
+        if isinstance(n.func, ast.Name) and n.func.id == "getattr" and len(n.args) == 3 and not n.keywords and _is_pure(n.args[0]) and _is_pure(n.args[1]):
+            self.count += 1
+            test = ast.Call(func=ast.Name(id="hasattr", ctx=ast.Load()), args=[copy.deepcopy(n.args[0]), copy.deepcopy(n.args[1])], keywords=[])
+            get = ast.Call(func=ast.Name(id="getattr", ctx=ast.Load()), args=[n.args[0], n.args[1]], keywords=[])
+            return ast.copy_location(ast.IfExp(test=ast.copy_location(test, n), body=ast.copy_location(get, n), orelse=n.args[2]), n)
         # P16: f(**{'a': x, 'b': y}) -> f(a=x, b=y)
         if any(k.arg is None and isinstance(k.value, ast.Dict) and all(isinstance(kk, ast.Constant) and isinstance(kk.value, str) for kk in k.value.keys) for k in n.keywords):
             kws = []
